@@ -1,6 +1,7 @@
 import NbioVerif.Lemmas.C08Meta
 import NbioVerif.Lemmas.C08Glue
 import NbioVerif.Lemmas.C08Engine
+import NbioVerif.Lemmas.C06Chain
 /-! C08: parser robustness and bounds (model level).
 
 * `c08_no_hang`        the Go-shaped index loop never runs out of fuel (fuel = |buf|+1), i.e. the
@@ -71,6 +72,33 @@ theorem implParse_no_fuel (M : Machine σ ε) (wf : WF M) (hE : ErrIn M (· ≠ 
   intro acc' h
   rw [implParse_eq_spec M wf st cache data acc hg] at h
   exact specFeed_err M (· ≠ 999) hE data st cache acc acc' 999 h rfl
+
+/-- the chain of `Parse` calls the driver runs never exhausts the loop's fuel, from any state satisfying the scanner
+    invariant (in particular from a fresh parser): the invariant is re-established by every call -/
+theorem feedAllL_no_fuel (M : Machine σ ε) (wf : WF M) (hE : ErrIn M (· ≠ 999)) (limit : Nat) :
+    ∀ (segs : List (List UInt8)) (st : σ) (cache : List UInt8) (acc : List ε), Good M st cache →
+      ∀ acc', feedAllL M limit st cache segs acc ≠ ⟨acc', .inr 999⟩ := by
+  intro segs
+  induction segs with
+  | nil => intro st cache acc _ acc' h; simp [feedAllL] at h
+  | cons seg segs ih =>
+    intro st cache acc hg acc' h
+    simp only [feedAllL, parseLC_eq] at h
+    by_cases ht : cache ≠ [] ∧ limit > 0 ∧ cache.length + seg.length > limit
+    · simp [parseL, ht] at h
+    · simp only [parseL, ht, if_false] at h
+      cases hr : implParse M st cache seg acc with
+      | mk a fin =>
+        rw [hr] at h
+        cases fin with
+        | inl pr =>
+          obtain ⟨st', cache'⟩ := pr
+          exact ih st' cache' a (implParse_good M wf st cache seg acc hg a st' cache' hr) acc' h
+        | inr e =>
+          simp only [Res.mk.injEq, Sum.inr.injEq] at h
+          obtain ⟨h1, h2⟩ := h
+          subst h1 h2
+          exact implParse_no_fuel M wf hE st cache seg acc hg a hr
 
 end Scan
 
@@ -160,18 +188,20 @@ theorem c08_bare_lf_in_header (g : Cfg) (p : P) (tok : Bytes)
     (hs : p.st = .headerKeyBefore ∨ p.st = .headerKey ∨ p.st = .headerValueBefore ∨ p.st = .headerValue) :
     byteStep g p tok LF = .err E.invalidCharInHeader.code [] := bare_lf_in_header g p tok hs
 
-/-- C08: nothing further after an error, for the engine glue "close the parser on error" (`CloseAndClean` sets
-    `stateClose`): a closed parser returns `net.ErrClosed` on every non-empty input without emitting any event. -/
-theorem c08_silent_after_close (g : Cfg) (p : P) (cache data : Bytes) (hs : p.st = .close) (hd : data ≠ [])
-    (hc : cache = []) :
-    implParse (machine g) p cache data [] = ⟨[], .inr E.closed.code⟩ := by
-  subst hc
-  cases data with
-  | nil => exact absurd rfl hd
-  | cons d ds =>
-    simp only [implParse, reduceCtorEq, if_false, List.nil_append, List.length_cons, List.length_nil]
-    unfold loop
-    simp [machine, block, hs, byteStep, er]
+/-- C08: `Parse` terminates along every chain of calls from a fresh parser, with or without a ReadLimit — no hypothesis
+    on intermediate states (the scanner invariant `Good` is established by `init` and kept by every call). -/
+theorem c08_no_hang_chain (g : Cfg) (limit : Nat) (segs : List Bytes) :
+    ∀ acc', feedAllL (machine g) limit (init g) [] segs [] ≠ ⟨acc', .inr 999⟩ :=
+  feedAllL_no_fuel (machine g) (wf g) (errIn_machine g) limit segs (init g) [] []
+    (fun n hn => (wf g).pos _ _ hn)
+
+/-- C08: retained bytes along every chain of calls from a fresh parser: with a ReadLimit set, what the parser holds
+    after any number of `Parse` calls is at most the limit or the largest single read. -/
+theorem c08_retained_chain (g : Cfg) (limit : Nat) (hl : 0 < limit) (segs : List Bytes) acc' st' cache'
+    (h : feedAllL (machine g) limit (init g) [] segs [] = ⟨acc', .inl (st', cache')⟩) :
+    cache'.length ≤ max limit (maxLen segs) := by
+  have := feedAllL_retained (machine g) limit hl segs (init g) [] [] 0 (by simp) acc' st' cache' h
+  simpa using this
 
 /-- C08: no nil dereference in the processor glue. `ObjInv g p cur` ties the parser state to the processor ("a message
     object exists exactly between the first event of a message and its `complete`"); it holds for a fresh parser and
@@ -181,7 +211,13 @@ theorem c08_no_nil_deref (g : Cfg) (p : P) (cache data : Bytes) (cur : Option Bu
     RunOk g cur [] (implParse (machine g) p cache data []) :=
   implParse_objInv g p cache data cur hI
 
-theorem c08_no_nil_deref_init (g : Cfg) : ObjInv g (init g) none := objInv_init g
+/-- C08: for every segmentation of every input (and every ReadLimit), running the real processors' logic over the events
+    of the chain of `Parse` calls from a fresh parser never hits a nil request/response. -/
+theorem c08_no_nil_deref_chain (g : Cfg) (limit : Nat) (segs : List Bytes) :
+    ∃ r, procRun g.isClient none (feedAllL (machine g) limit (init g) [] segs []).evs [] = some r := by
+  obtain ⟨evs', e, cur', out, hp, _⟩ := feedAllL_objInv g limit segs (init g) [] [] none (objInv_init g)
+  simp only [List.nil_append] at e
+  exact ⟨(cur', out), by rw [e]; exact hp⟩
 
 def g0 : Cfg := { isClient := false, maxBody := 0, urlOk := fun _ => true, protoOk := fun _ => true }
 
@@ -285,6 +321,31 @@ theorem c08_engine_tls_blocking (M : Machine σ ε) (limit : Nat) (st0 : σ) (rs
   show runTlsB M limit (fresh st0) (rs ++ more) = runTlsB M limit (fresh st0) rs
   simp only [runTlsB, List.foldl_append]
   exact runTlsB_sealed M limit more _ hs
+
+/-- a closed parser returns `net.ErrClosed` (code 1) on every input without a single callback -/
+theorem parse_closed (M : Machine σ ε) (limit : Nat) (pc : PC σ) (d : Bytes) (h : pc.closed = true) :
+    parse M limit pc d = (pc, [], some 1) := by simp [parse, h]
+
+/-- **C08 "reports nothing further once it has returned an error"**, for the glue every reader of nbhttp applies
+    (`parseE` = `Parse`, and on an error `CloseAndClean`): once a call has returned an error — from any state, with any
+    cache — every later call, on any data, returns `net.ErrClosed` without events and leaves the parser as it is. -/
+theorem c08_parseE_silent (M : Machine σ ε) (limit : Nat) (pc : PC σ) (d : Bytes) (e : Nat)
+    (h : (parseE M limit pc d).2.2 = some e) (d' : Bytes) :
+    parseE M limit (parseE M limit pc d).1 d' = ((parseE M limit pc d).1, [], some 1) := by
+  have hc : (parseE M limit pc d).1.closed = true := by
+    simp only [parseE] at h ⊢
+    rw [h]; rfl
+  generalize (parseE M limit pc d).1 = q at hc ⊢
+  have hq : ({ q with closed := true } : PC σ) = q := by cases q; simp_all
+  simp [parseE, parse_closed M limit q d' hc, hq]
+
+/-- the bare parser is NOT silent after an error: without the glue's `CloseAndClean`, `Parse` continues from the state it
+    was in (this is why every reader must close: DESIGN 8 #12 was the blocking reader not doing it) -/
+theorem c08_bare_parser_not_silent :
+    ∃ (g : Http.Cfg) (d1 d2 : Bytes),
+      (match (implParse (Http.machine g) (Http.init g) [] d1 []).fin with | .inr e => e | .inl _ => 0) = 2 ∧
+      (implParse (Http.machine g) (Http.init g) [] d2 []).evs.length = 5 :=
+  ⟨Http.g0, [1], Http.str "GET / HTTP/1.1\r\n\r\n", by decide, by decide⟩
 
 /-- non-vacuity: a malformed request followed by a valid one, in two reads, on the real state table: the valid
     request's events never appear, one connClose, in both plain modes -/
